@@ -82,7 +82,8 @@ def vp_spec():
     def inv(old, now, i):
         n, m = old.shape("matrix", 1), old.shape("matrix", 0)
         w = w_of(old)
-        return [z3.ForAll([k], z3.If(z3.And(k >= 0, k < i), now.sel("temp", k) == 0, now.sel("temp", k) == z3.Select(w, k))), now["temp"].shape[0] == m]
+        temp = now.stored(0)  # the vector the loop zeroes (whatever the code calls it)
+        return [z3.ForAll([k], z3.If(z3.And(k >= 0, k < i), now.sel(temp, k) == 0, now.sel(temp, k) == z3.Select(w, k))), temp.shape[0] == m]
 
     def ensures(old, new, res):
         n, m = old.shape("matrix", 1), old.shape("matrix", 0)
